@@ -20,6 +20,34 @@ NA = {
 }
 
 CHECKS = {
+    "C06": dict(
+        technique="positional layout extraction (writer key sequence vs reader (index, key) pairs), field-coverage set comparison with "
+                  "value provenance to the restoring sink, abstract execution of the upgrade's constant-index inserts",
+        text="Partial: writer/reader agreement slot by slot, coverage of every Node field (incl. one added later) with provenance, parent "
+             "links on load and the upgrade's layout algebra are decided; byte identity and Unicode fidelity are the json library's.",
+        note="namespace-map replay through add_namespace is covered structurally by C13",
+        ref="DESIGN.md section 3, C06"),
+    "C15": dict(
+        technique="escape analysis with conditional callee summaries and membership facts, handler-coverage path check, record/remove/"
+                  "unregister pairing, effect summary bound, element-kind consistency of membership tests, live-iteration rule",
+        text="Partial: prune never raises (all paths, all callees), the sweep runs for every rule error, every removal is recorded and "
+             "unregistered and nothing else is written; that the remainder is valid and idempotence are not decided.",
+        note="distinct variables iterating a duplicate-free child list denote distinct nodes; D-TREE/D-REG provisos",
+        ref="DESIGN.md section 3, C15"),
+    "C16": dict(
+        technique="may-dataflow of a WROTE marker against the failure points found by the escape analysis (validate-then-mutate incl. "
+                  "loop back edges), def-use/dominance check of the insertion index, copy provenance, loop-shape rules",
+        text="Partial: atomic failure, in-place ordered insertion, copies-not-originals and complete cleanup are decided on all paths of "
+             "expand; that the result validates is not.",
+        note="independence of the copies is C12; only the documented ValueError may escape",
+        ref="DESIGN.md section 3, C16"),
+    "C19": dict(
+        technique="escape analysis (nullable-use rule) through the dispatch table, table/tuple shape rules, declared-vs-emitted set "
+                  "comparison, threshold guards evaluated at t-1, t, t+1",
+        text="Partial: totality on all paths of all evaluators, the shape of what is appended, completeness of the warning set and the "
+             "three documented thresholds are decided; that the emitted set equals the recommendations on every tree is not.",
+        note="word counting relies on normalize()/split (library semantics)",
+        ref="DESIGN.md section 3, C19"),
     "C12": dict(
         technique="flow-sensitive may-aliasing domain over Node.copy (which container fields of the clone still alias the original's), "
                   "freshness classification of re-binding expressions, marker dataflow for id re-binding / registration order, pairing rule for parent links",
